@@ -430,6 +430,39 @@ def _zlib_status(prog, chk, D5, zu):
                                   facts={'outcomes': sorted(res)})
             else:
                 chk.ok(D5, inst + ' -> ' + ','.join(sorted(res)), locstr(outer), site=inst)
+    # no-progress scenarios with input still available: after Z_STREAM_END inflate neither
+    # consumes nor produces anything more, so any loop that continues spins forever on a
+    # valid stream that is followed by trailing bytes
+    for in_left, in_desc in ((5, 'unconsumed input remains in the chunk'), (0, 'chunk consumed')):
+        for more_input_after, ptr_desc in ((False, 'no further chunk'), (True, 'further chunks follow')):
+            res, inner = _zlib_round(prog, zu, obody, ocond, vars_, sid, Z_CODES['Z_STREAM_END'],
+                                     False, exhausted=False, in_left=in_left, want_inner=True,
+                                     )
+            inst = 'inflate returns Z_STREAM_END, output buffer not full, %s' % in_desc
+            if any(inner):
+                chk.violation(D5, 'zlib_uncompress|Z_STREAM_END|inner-continues|%s' % in_desc,
+                              locstr(outer),
+                              '%s: the inner loop runs another round although the stream has ended; '
+                              'inflate makes no further progress, so the round repeats forever '
+                              '(valid stream followed by trailing bytes)' % inst)
+            elif 'continues' in res:
+                chk.violation(D5, 'zlib_uncompress|Z_STREAM_END|outer-continues|%s' % in_desc,
+                              locstr(outer), '%s: the outer loop continues after the end of the '
+                              'stream' % inst)
+            else:
+                chk.ok(D5, inst + ' -> leaves both loops', locstr(outer), site=inst + ptr_desc)
+    # Z_OK with the output buffer not full and input consumed: the inner loop must hand back
+    # to the outer loop (which feeds the next chunk), not spin
+    res, inner = _zlib_round(prog, zu, obody, ocond, vars_, sid, Z_CODES['Z_OK'], False,
+                             exhausted=False, in_left=0, want_inner=True)
+    inst = 'inflate returns Z_OK, output buffer not full, chunk consumed'
+    if any(inner):
+        chk.violation(D5, 'zlib_uncompress|Z_OK|inner-continues', locstr(outer),
+                      inst + ': the inner loop runs again with no input and free output space; '
+                      'inflate can make no progress (Z_BUF_ERROR) and the condition repeats')
+    else:
+        chk.ok(D5, inst + ' -> inner loop ends, outer loop feeds the next chunk', locstr(outer),
+               site=inst)
     # error codes must never fall through to use of the output
     for cname in ('Z_DATA_ERROR', 'Z_MEM_ERROR', 'Z_NEED_DICT'):
         res = _zlib_round(prog, zu, obody, ocond, vars_, sid, Z_CODES[cname], False, exhausted=False)
@@ -440,7 +473,8 @@ def _zlib_status(prog, chk, D5, zu):
                           'inflate status %s does not end in an exception (outcomes %s)' % (cname, sorted(res)))
 
 
-def _zlib_round(prog, zu, obody, ocond, vars_, sid, code, more_output, exhausted=True):
+def _zlib_round(prog, zu, obody, ocond, vars_, sid, code, more_output, exhausted=True,
+                in_left=None, want_inner=False):
     """One outer round; returns set of {'throw','exits','continues'}."""
     from ..feval import Evaluator, UNKNOWN, Outcome
     pid, eid, rid = vars_['ptr']['id'], vars_['end']['id'], vars_['ret']['id']
@@ -452,6 +486,8 @@ def _zlib_round(prog, zu, obody, ocond, vars_, sid, code, more_output, exhausted
     def hook(ev, qn, args, env_, node, stmt=False):
         return NotImplemented
     ev = Evaluator(prog, zu, hook)
+    ev.inner_cond = []
+    ev.in_left = in_left
     _patch(ev, sid, code, more_output)
     # constants declared before the loop (chunk size)
     for stx in children(zu.body):
@@ -477,6 +513,8 @@ def _zlib_round(prog, zu, obody, ocond, vars_, sid, code, more_output, exhausted
                 results.add(_cond(ev, ocond, e))
             continue
         results.add(_cond(ev, ocond, e))
+    if want_inner:
+        return results, list(ev.inner_cond)
     return results
 
 
@@ -501,7 +539,16 @@ def _patch(ev, sid, code, more_output):
             nm = (strip(children(x)[0]).get('referencedDecl') or {}).get('name')
             if nm == 'inflate':
                 env[('member', sid, 'avail_out')] = 0 if more_output else 1
+                if ev.in_left is not None:
+                    env[('member', sid, 'avail_in')] = ev.in_left
                 return code
+            if nm == 'deflate':
+                args = children(x)[1:]
+                fl = base_ev(args[1], env) if len(args) > 1 else UNKNOWN
+                ev.deflate_calls.append((env.get(('member', sid, 'avail_in'), UNKNOWN), fl))
+                env[('member', sid, 'avail_out')] = 1     # output buffer not filled
+                env[('member', sid, 'avail_in')] = 0      # deflate consumes its input
+                return 0
             if nm == 'inflateEnd':
                 return 0
         if x.get('kind') == 'MemberExpr':
@@ -538,13 +585,25 @@ def _patch(ev, sid, code, more_output):
                 env[l['referencedDecl']['id']] = ev.binop('+', a, b)
                 yield None, env
                 return
+        if x.get('kind') == 'CallExpr' and \
+                (strip(children(x)[0]).get('referencedDecl') or {}).get('name') == 'deflate':
+            ev.ev(x, env)
+            yield None, env
+            return
         if k == 'DoStmt':
-            # inner loop: one round, then leave (further rounds repeat the same status)
+            # inner loop: one round, then its own condition is evaluated and recorded
+            # (ev.inner_cond: would a second round follow?); the caller decides whether
+            # a further round is legitimate (progress) or a spin (no progress)
             c = children(n)
             for st, e in base_exec(c[0], env, trace):
                 if st is not None and st.kind == 'break':
                     yield None, e
                 else:
+                    if st is None:
+                        v = ev.ev(c[1], e)
+                        from ..feval import Choice
+                        ev.inner_cond.append(True if (v is UNKNOWN or isinstance(v, Choice))
+                                             else bool(ev.truth(v)))
                     yield st, e
             return
         for r in base_exec(n, env, trace):
